@@ -27,6 +27,17 @@ def _df():
         "group": ["g1", "g2", "g1", "g2"], "feat": ["x", "x", "y", "x"], "feat2": ["u", "v", "u", "u"]}, index=[4, 5, 6, 7])
 
 
+def _explicit_axes(fn, *args, **kwargs):
+    """Call a plotting function with explicitly given axes that are NOT pyplot's current axes and report whether pyplot's notion of
+    the current figure / axes survived the call (a later call with ax=None draws there) and the other axes stayed empty."""
+    import matplotlib.pyplot as plt
+    fig1, ax1 = plt.subplots()
+    fig2, ax2 = plt.subplots()
+    fn(*args, ax=ax1, **kwargs)
+    ok = (plt.gcf() is fig2) and (plt.gca() is ax2) and not (ax2.lines or ax2.collections or ax2.patches or ax2.texts)
+    return ["invariant", bool(ok)]
+
+
 def _guard(df):
     from mc.canon import guarded_frame
     return guarded_frame(df)
@@ -215,6 +226,11 @@ def ops():
     # ---- plotting
     lazy("rankfrequency", lambda: (P.rankfrequency, (np.array([3.0, 1.0, float("nan"), 2.0]),), {"ax": fig_ax(), "normalize_y": True}))
     lazy("rankfrequency-raw-float-array", lambda: (P.rankfrequency, (np.array([3.0, 1.0, 7.0, 2.0]),), {"ax": fig_ax(), "normalize_x": False}))
+    # plotting functions given their axes explicitly leave pyplot's current figure / axes alone
+    lazy("inv-density_scatter-cbar-explicit-axes", lambda: (_explicit_axes, (P.density_scatter, [0, 1, 0, 1, 1], [0, 1, 0, 0, 1]), {"discrete": True, "cbar": True}))
+    lazy("inv-density_scatter-explicit-axes", lambda: (_explicit_axes, (P.density_scatter, np.linspace(0, 1, 40), (np.linspace(0, 1, 40) * 3) % 1), {"bins": 5}))
+    lazy("inv-rankfrequency-explicit-axes", lambda: (_explicit_axes, (P.rankfrequency, [5, 3, 3, 1]), {}))
+    lazy("inv-seqlogos-explicit-axes", lambda: (_explicit_axes, (P.seqlogos, ["CAS", "CAT", "CSS"]), {}))
     lazy("density_scatter-float-arrays", lambda: (P.density_scatter, (np.array([0.5, 1.5, 0.5]), np.array([2.0, 1.0, 2.0])), {"ax": fig_ax(), "discrete": True, "sort": True}))
     lazy("graph_clustering-dbscan-float-table", lambda: (prs.graph_clustering, (np.array([(0, 1, 0.0), (1, 0, 0.0), (1, 2, 0.5), (2, 1, 0.5), (3, 4, 1.0), (4, 3, 1.0)]), list(SEQS)[:5]), {"clustering": "DBSCAN"}))
     lazy("graph_clustering-fastgreedy-ndarray", lambda: (prs.graph_clustering, (np.array([[1, 0, 1], [2, 1, 1], [4, 3, 2]]), list(SEQS)), {"clustering": "fastgreedy"}))
